@@ -94,6 +94,8 @@ def families():
         ("point-3857", 8, lambda: geom.point(0, 10, "EPSG:3857")),
         ("multipoint", 9, lambda: geom.multipoint(poly[:3], "EPSG:4326")),
         ("box", 10, lambda: geom.box(0, 0, 10, 10.5, "EPSG:4326")),
+        ("poly-eps1", 11, lambda: geom.polygon([(x + (1e-9 if i == 1 else 0), y) for i, (x, y) in enumerate(poly)], "EPSG:4326")),
+        ("poly-eps2", 12, lambda: geom.polygon([(x + (2e-9 if i == 1 else 0), y) for i, (x, y) in enumerate(poly)], "EPSG:4326")),
     ]
     BB = geom.BoundingBox
     F["BoundingBox"] = [
@@ -106,6 +108,9 @@ def families():
         ("bb-bottom", 5, lambda: BB(0, 0, 2, 3, "EPSG:4326")),
         ("bb-right", 6, lambda: BB(0, 1, 2.5, 3, "EPSG:4326")),
         ("bb-top", 7, lambda: BB(0, 1, 2, 4, "EPSG:4326")),
+        ("bb-eps1", 8, lambda: BB(0, 1, 2, 3 + 1e-9, "EPSG:4326")),
+        ("bb-eps2", 9, lambda: BB(0, 1, 2, 3 + 2e-9, "EPSG:4326")),
+        ("bb-eps-left", 10, lambda: BB(1e-12, 1, 2, 3, "EPSG:4326")),
     ]
     F["GeoBox"] = [
         ("gb", 1, lambda: GeoBox((4, 5), A0, "EPSG:32633")),
@@ -120,6 +125,12 @@ def families():
         ("gb-scale", 8, lambda: GeoBox((4, 5), A0 * Affine.scale(2), "EPSG:32633")),
         ("gb-flip", 9, lambda: GeoBox((4, 5), A0 * Affine.scale(1, -1), "EPSG:32633")),
         ("gb-rot", 10, lambda: GeoBox((4, 5), A0 * Affine.rotation(30), "EPSG:32633")),
+        # near-identical: translation / scale changed by far less than a pixel (three steps expose a tolerance in ==)
+        ("gb-eps-tx1", 12, lambda: GeoBox((4, 5), Affine(10.0, 0.0, 500000.0 + 4e-6, 0.0, -10.0, 6000000.0), "EPSG:32633")),
+        ("gb-eps-tx2", 13, lambda: GeoBox((4, 5), Affine(10.0, 0.0, 500000.0 + 8e-6, 0.0, -10.0, 6000000.0), "EPSG:32633")),
+        ("gb-eps-tx3", 14, lambda: GeoBox((4, 5), Affine(10.0, 0.0, 500000.0 + 1.2e-5, 0.0, -10.0, 6000000.0), "EPSG:32633")),
+        ("gb-eps-scale", 15, lambda: GeoBox((4, 5), Affine(10.0 + 1e-9, 0.0, 500000.0, 0.0, -10.0, 6000000.0), "EPSG:32633")),
+        ("gb-eps-shear", 16, lambda: GeoBox((4, 5), Affine(10.0, 1e-12, 500000.0, 0.0, -10.0, 6000000.0), "EPSG:32633")),
         ("gb-sliced", 11, lambda: GeoBox((4, 5), A0, "EPSG:32633")[1:, :]),
         ("gb-sliced-same", 11, lambda: GeoBox((3, 5), A0 * Affine.translation(0, 1), "EPSG:32633")),
     ]
@@ -133,6 +144,8 @@ def families():
         ("gcp-mapping", 4, lambda: GCPGeoBox((11, 11), _gcp_mapping(1))),
         ("gcp-crs", 5, lambda: GCPGeoBox((11, 11), _gcp_mapping(0, "EPSG:4283"))),
         ("gcp-evaluated", 1, lambda: _evaluated(GCPGeoBox((11, 11), m_shared))),
+        ("gcp-eps-affine", 6, lambda: GCPGeoBox((11, 11), m_shared, Affine.translation(1e-9, 0))),
+        ("gcp-eps-point", 7, lambda: GCPGeoBox((11, 11), _gcp_mapping(1e-9))),
     ]
     F["Tiles"] = [
         ("t-10-4", 1, lambda: Tiles((10, 10), (4, 4))),
@@ -157,6 +170,9 @@ def families():
         ("v-y-last", 6, lambda: V(((4, 4, 3), (5, 5)))),
         ("v-merge", 7, lambda: V(((8, 2), (5, 5)))),
         ("v-regular", 8, lambda: V(((4, 4, 2), (4, 4, 2)))),
+        # > 1000 chunks: differ only in the middle (text form of a large array is abbreviated)
+        ("v-big", 9, lambda: V(((1,) * 1500, (5,)))),
+        ("v-big-mid", 10, lambda: V(((1,) * 700 + (2, 0) + (1,) * 798, (5,)))),
     ]
     gb = lambda: GeoBox((10, 10), A0, "EPSG:32633")  # noqa: E731
     F["GeoboxTiles"] = [
@@ -168,6 +184,8 @@ def families():
         ("gt-base11", 5, lambda: GeoboxTiles(GeoBox((11, 11), A0, "EPSG:32633"), (4, 4))),
         ("gt-crs", 6, lambda: GeoboxTiles(GeoBox((10, 10), A0, "EPSG:3857"), (4, 4))),
         ("gt-moved", 7, lambda: GeoboxTiles(GeoBox((10, 10), A0 * Affine.translation(1, 0), "EPSG:32633"), (4, 4))),
+        ("gt-eps1", 8, lambda: GeoboxTiles(GeoBox((10, 10), Affine(10.0, 0.0, 500000.0 + 4e-6, 0.0, -10.0, 6000000.0), "EPSG:32633"), (4, 4))),
+        ("gt-eps2", 9, lambda: GeoboxTiles(GeoBox((10, 10), Affine(10.0, 0.0, 500000.0 + 8e-6, 0.0, -10.0, 6000000.0), "EPSG:32633"), (4, 4))),
     ]
     F["XY"] = [
         ("xy12", 1, lambda: xy_(1, 2)),
@@ -177,6 +195,7 @@ def families():
         ("xy11", 3, lambda: xy_(1, 1)),
         ("xy12f", 1, lambda: xy_(1.0, 2.0)),
         ("xy1_25", 4, lambda: xy_(1, 2.5)),
+        ("xy-eps", 5, lambda: xy_(1, 2 + 1e-12)),
     ]
     F["Resolution"] = [
         ("res10", 1, lambda: res_(10)),
@@ -185,6 +204,7 @@ def families():
         ("resxy-ns", 3, lambda: resxy_(10, -20)),
         ("res20", 4, lambda: res_(20)),
         ("resxy-neg", 5, lambda: resxy_(-10, -10)),
+        ("res-eps", 6, lambda: resxy_(10 + 1e-12, -10)),
     ]
     F["Index2d"] = [
         ("ixy", 1, lambda: ixy_(1, 2)),
@@ -213,6 +233,9 @@ def families():
         ("gs-flipy", 7, lambda: G("EPSG:3577", (100, 100), 10, flipy=True)),
         ("gs-res-shape", 8, lambda: G("EPSG:3577", (50, 50), 20)),  # same tile size in metres
         ("gs-respos", 9, lambda: G("EPSG:3577", (100, 100), resxy_(10, 10))),
+        ("gs-eps-origin1", 10, lambda: G("EPSG:3577", (100, 100), 10, origin=xy_(1e-9, 0.0))),
+        ("gs-eps-origin2", 11, lambda: G("EPSG:3577", (100, 100), 10, origin=xy_(2e-9, 0.0))),
+        ("gs-eps-res", 12, lambda: G("EPSG:3577", (100, 100), resxy_(10 + 1e-9, -10))),
     ]
     return F
 
@@ -560,6 +583,66 @@ def gen_hist(tier):
     return lambda: iter(cases)
 
 
+# -- cache pressure: long histories of one fixed shape, enumerated over the pressure level K -------------------
+def pressure_specs(k):
+    """k distinct CRS specifications (transverse Mercator strips with different central meridians)."""
+    return [f"+proj=tmerc +lat_0=0 +lon_0={-180 + (i % 1440) * 0.25:.2f} +k=0.9996 +x_0={500000 + (i // 1440)} +y_0=0 "
+            f"+datum=WGS84 +units=m +no_defs" for i in range(k)]
+
+
+def gen_pressure(tier):
+    ks = (0, 1, 16, 130, 300, 1100) if tier == "quick" else (0, 1, 16, 130, 300, 1100, 2100, 4200)
+
+    def g():
+        for k in ks:
+            for a in (("int", 4326), ("wkt", 3857), ("pyproj", 32633)):
+                for use_first in (True, False):
+                    yield (k, a, use_first)
+
+    return g
+
+
+def run_pressure(case):
+    """History: new A, new B, transformer(A,B) [and (B,A)], K x new distinct CRS, drop A and B, gc.
+    Invariant: the pyproj objects whose ids key the transformer cache entries are still alive, and a CRS rebuilt
+    from A's spec still gets a transformer that agrees with a fresh pyproj transformer."""
+    k, a_spec, both = case
+    _clear_caches()
+    gc.collect()
+    r = R(outcome=f"pressure:K{k}")
+    b_spec = ("int", 3577)
+    A, B = crs_by_route(*a_spec), crs_by_route(*b_spec)
+    A.transformer_to_crs(B)
+    if both:
+        B.transformer_to_crs(A)
+    keys = [crsmod._make_crs_transform_key(A._crs, B._crs, True)]
+    refs = [weakref.ref(A._crs), weakref.ref(B._crs)]
+    for spec in pressure_specs(k):
+        CRS(spec)
+    del A, B
+    gc.collect()
+    dead = [i for i, w in enumerate(refs) if w() is None]
+    still_keyed = [kk for kk in keys if kk in crsmod._make_crs_transform.cache]
+    if dead and still_keyed:
+        r.fail("transformer-cache:dead-object-id:after-cache-pressure",
+               f"after {k} further CRS constructions, dropping the handles and gc, the pyproj object(s) {dead} whose id keys "
+               f"transformer cache entry {still_keyed[0]} have been freed: the id can be reused by another CRS and the stale "
+               f"transformer served for it (history: new {a_spec}, new {b_spec}, transformer, {k} x new tmerc strip, drop, gc)")
+    A2, B2 = crs_by_route(*a_spec), crs_by_route(*b_spec)
+    x, y = _PROBE if a_spec[1] == 4326 else _PROBE_M
+    got = A2.transformer_to_crs(B2)(x.copy(), y.copy())
+    want = fresh_transform(a_spec[1], b_spec[1])
+    if not (np.array_equal(got[0], want[0], equal_nan=True) and np.array_equal(got[1], want[1], equal_nan=True)):
+        r.fail("transformer:wrong-pair:after-cache-pressure", f"{case}: {got} vs fresh pyproj {want}")
+    obs = observe(A2)
+    _clear_caches()
+    base = observe(crs_by_route(*a_spec))
+    if obs != base and a_spec[0] == "int":
+        r.fail(f"history:str+hash+token:{a_spec[0]}:{a_spec[1]}:after-cache-pressure", f"{case}: {_short(obs)} vs {_short(base)}")
+    _clear_caches()
+    return r
+
+
 def reset_caches():
     _clear_caches()
     _OBJ.clear()
@@ -573,6 +656,9 @@ def slices(tier):
                  "BFS over CRS cache histories, one search per initial history (single construction, or two "
                  "constructions + transformer request as non-initial start state)",
                  shards=len(history_cases(tier)), setup=reset_caches),
+        e1.Slice("crs-cache-pressure", gen_pressure(tier), run_pressure,
+                 "histories [new A, new B, transformer, K x new distinct CRS, drop, gc] for every pressure level K in the menu",
+                 shards=36, setup=reset_caches),
     ]
 
 
